@@ -366,7 +366,11 @@ class Sweeper:
                                  for k, x in v.value.items()))
             del seen[id(v)]
             return r
-        if isinstance(v, (cv.ValueInput, cv.ValueOutput, cv.ValueFunc)):
+        if isinstance(v, cv.ValueFunc):
+            # what a program can see of a function value besides calling it
+            return (v.type(), getattr(v, "name", None),
+                    getattr(v, "info", "") or "")
+        if isinstance(v, (cv.ValueInput, cv.ValueOutput)):
             return (v.type(),)
         if isinstance(v, cv.ValueNull):
             return ("null",)
